@@ -96,8 +96,10 @@ func notNeeded(date string, todo work) bool {
 		return true
 	}
 	// maybe the report is already in todo.readyfiles
+	// (Compare the file's name, not its path: the telemetry directory's own
+	// path may contain a date.)
 	for _, f := range todo.readyfiles {
-		if strings.Contains(f, date) {
+		if filepath.Base(f) == date+".json" {
 			return true
 		}
 	}
